@@ -59,7 +59,7 @@ def main():
         finally:
             sys.settrace(None)
         if exc:
-            lines.append([])
+            lines.append([-1])       # raised in the interpreted run: the harness always keeps such a case
         else:
             lines.append(sorted(files.setdefault(os.path.basename(a), len(files)) * 10000000 + b for a, b in seen))
     json.dump(dict(files=sorted(files, key=files.get), lines=lines), open(sys.argv[2], "w"))
